@@ -23,6 +23,25 @@ CHECKS = {
              "EVERY error on EVERY path the solver must confirm: path resolves to the reported object, the "
              "stated fact holds, fields are the declared parameters, the message names the path.",
         design="4/C03"),
+    "C01": dict(
+        text="Bounded symbolic execution of the real Generator+Validator with the stdlib random module replaced "
+             "by a nondeterministic tape: every draw of every fake() is a solver variable, so the extreme outcome "
+             "of every draw is covered; constraint parameters are symbolic (bounds beyond generator defaults).",
+        design="4/C01"),
+    "C12": dict(
+        text="Bounded symbolic execution of the real Substitutor per schema/value skeleton: only SubstitutionError "
+             "may escape, the result must generate (under the tape RNG) a value it accepts, and S % v % v == S % v.",
+        design="4/C04-C05-C12"),
+    "C04": dict(
+        text="Bounded symbolic execution of Substitutor+Validator+Generator per skeleton with two independent "
+             "symbolic values: the substituted v and a probe w. Solver must confirm on all paths: R accepts a "
+             "conforming v; R accepts w only if w agrees with v at every substituted position; fake(R) agrees "
+             "with v for every draw; keys absent from v keep schema and optionality.",
+        design="4/C04-C05-C12"),
+    "C05": dict(
+        text="Same skeletons; relational post-condition decided by the solver over all (v, w): validate(S % v, w) "
+             "clean implies validate(S, w) clean, and every value generated from S % v validates against S.",
+        design="4/C04-C05-C12"),
 }
 
 NOT_YET = {
